@@ -186,6 +186,8 @@ func (s *simscreen) drawCell(x, y int) int {
 	if x > s.physw-width {
 		simc.Runes = []rune{' '}
 		simc.Bytes = []byte{' '}
+		// the physical cell now reflects this content
+		s.back.SetDirty(x, y, false)
 		return width
 	}
 
